@@ -100,7 +100,8 @@ impl G {
 	/// Run `f` one nesting level deeper with smaller collections.
 	pub fn nested<T>(&mut self, f: impl FnOnce(&mut G) -> T) -> T {
 		let (ml, d) = (self.max_len, self.depth);
-		self.max_len = if ml > 3 { 3 } else { ml };
+		// inner collections are small, but now and then long enough to outgrow a buffer sized by a hint
+		self.max_len = if ml > 3 { if self.depth >= 3 && self.chance(1, 10) { 70 } else { 3 } } else { ml };
 		self.depth = d.saturating_sub(1);
 		let r = f(self);
 		self.max_len = ml;
